@@ -214,7 +214,8 @@ def foreign_collide(rng):
     f = rng.choice(["<svg>", "<math>", "<svg><g>", "<math><mi>", "<svg><foreignObject>", "<math><annotation-xml>", "<svg><desc>"])
     names = ["table", "tbody", "thead", "tfoot", "tr", "td", "th", "caption", "colgroup", "col", "select", "option", "optgroup", "li", "dd", "dt", "p",
              "button", "a", "nobr", "form", "html", "body", "head", "frameset", "title", "textarea", "script", "style", "template", "rt", "rp", "object",
-             "applet", "marquee", "input", "br", "hr", "h1", "div", "b", "font", "g", "mi"]
+             "applet", "marquee", "input", "br", "hr", "h1", "div", "b", "font", "g", "mi",
+             "desc", "foreignObject", "mtext", "annotation-xml", "desc", "foreignObject"]
     out = [outer, f]
     for _ in range(rng.randint(1, 5)):
         r = rng.random()
